@@ -17,6 +17,10 @@ CLAIMED = {
         text="Lean theorems (any ordered floor field, histories of any length): insertion slot = clamp(round-half-up offset) (nearest / earliest / last), add touches exactly one cell, advance shifts and vacates, and queue_exactly_once: delivered + pending = added per (absolute slot, reaction) by induction over histories; partition parts sum to the original for every random stream. Executable model compared with the real ArrayDelayQueue on exhaustive short histories and random histories up to length 200 (Float and Rat), including twister-exact binomial partitions.",
         note=NOTE_COMMON + "aliasing (copy independence) cannot be expressed in the pure model and is covered by the correspondence histories only; C-cast truncation is the class law LawfulTrunc.",
         technique="Lean 4 proof (invariant over histories) + exhaustive/random correspondence", ref="DESIGN.md §4 C20"),
+    "C05": dict(
+        text="Lean theorems: for every uniform stream (hence every seed), network, grid and fuel the SSA loop (with its reaction_fired / rule_step / Lambda==0 flags) equals the restartable jump-process specification (ssa_refines_jump); sample_discrete returns the index whose cumulative interval contains u*Lambda, zero-propensity reactions are never chosen; over R: waiting-time tail, memorylessness, choice interval of length a_j/Lambda, one-step rectangle. The law-level composition into the master equation is NOT formalised (ssa_exact_partial). Tie: the Lean loop driven by the same MT19937-64 stream reproduces every reported row of SSASimulator bit for bit; G-test against expm(Qt) as statistical support and failing-input search.",
+        note=NOTE_COMMON + "partial: CTMC composition of one-step kernels is textbook, not in Mathlib; twister equidistribution assumed; u=0 (2^-53) excluded.",
+        technique="Lean 4 proof (refinement to a jump-process spec + interval-measure lemmas) + bit-exact trajectory correspondence", ref="DESIGN.md §4 C05"),
 }
 PENDING = {}
 def main():
